@@ -27,6 +27,17 @@ func (fr *frame) nilCheck(v ssa.Value, pv *Val, reach string, pos token.Pos) {
 	if fr.pure {
 		return
 	}
+	term := pv.t
+	if pv.lv != nil && pv.t == "" && pv.lv.kind == lvHeap && len(pv.lv.path) == 0 {
+		term = pv.lv.ref
+	}
+	if term != "" {
+		key := reach + "|" + term
+		if fr.u.nonNil[term] || fr.u.nonNil[key] {
+			return
+		}
+		fr.u.nonNil[key] = true // same reach condition: the earlier obligation covers this one
+	}
 	if pv.lv != nil && pv.t == "" {
 		if pv.lv.kind == lvHeap && len(pv.lv.path) == 0 {
 			fr.u.oblige(fr.obName("nil", fr.describe(v, 0)), "nil", nil, reach, fmt.Sprintf("(not (= %s 0))", pv.lv.ref), fr.pos(pos), "")
@@ -46,7 +57,8 @@ func (fr *frame) execInstr(in ssa.Instruction, st *State, reach string, b *ssa.B
 		et := x.Type().Underlying().(*types.Pointer).Elem()
 		if fr.pure {
 			z := s.zero(et)
-			fr.vals[x] = &Val{lv: &LVal{kind: lvPure, rootT: et, typ: et, pure: &z}}
+			var pv *Val
+			fr.vals[x] = &Val{lv: &LVal{kind: lvPure, rootT: et, typ: et, pure: &z, pval: &pv}}
 			return
 		}
 		if !x.Heap {
@@ -85,7 +97,7 @@ func (fr *frame) execInstr(in ssa.Instruction, st *State, reach string, b *ssa.B
 			}
 			et := xt.Elem()
 			fr.vals[x] = &Val{lv: &LVal{kind: lvElem, name: "E:" + s.typeKey(et), ref: fmt.Sprintf("(s-arr %s)", xv.t),
-				idx: fr.defSort("ix", "Int", fmt.Sprintf("(+ (s-off %s) %s)", xv.t, iv)), rootT: et, typ: et}}
+				idx: fr.defSort("ix", "Int", fmt.Sprintf("(+ (s-off %s) %s)", xv.t, iv)), rootT: et, typ: et, sl: xv.t, si: iv}}
 		case *types.Pointer:
 			at := xt.Elem().Underlying().(*types.Array)
 			fr.nilCheck(x.X, xv, reach, x.Pos())
@@ -127,6 +139,9 @@ func (fr *frame) execInstr(in ssa.Instruction, st *State, reach string, b *ssa.B
 		if fr.pure {
 			if lv.kind == lvPure {
 				u.write(st, lv, fr.valTerm(vv, st))
+				if len(lv.path) == 0 && lv.pval != nil {
+					*lv.pval = vv
+				}
 			}
 			return
 		}
@@ -239,7 +254,7 @@ func (fr *frame) execInstr(in ssa.Instruction, st *State, reach string, b *ssa.B
 		for _, r := range x.Results {
 			vals = append(vals, fr.valOf(r))
 		}
-		fr.rets = append(fr.rets, retInfo{reach: reach, vals: vals, st: st.clone()})
+		fr.rets = append(fr.rets, retInfo{reach: reach, vals: vals, st: st.clone(), pos: fr.pos(x.Pos()), tpos: x.Pos()})
 	case *ssa.If, *ssa.Jump:
 		// handled by edgeCond
 	default:
@@ -320,6 +335,10 @@ func (fr *frame) execUnOp(x *ssa.UnOp, st *State, reach string) {
 	case token.MUL: // load
 		fr.nilCheck(x.X, v, reach, x.Pos())
 		lv := fr.ptrLV(v, x.X.Type())
+		if lv.kind == lvPure && len(lv.path) == 0 && lv.pval != nil && *lv.pval != nil {
+			fr.vals[x] = *lv.pval
+			return
+		}
 		term := fr.def("ld", x.Type(), u.read(st, lv))
 		fr.assumeWF(x.Type(), term, st, reach)
 		fr.vals[x] = &Val{t: term}
@@ -819,30 +838,30 @@ func (fr *frame) modifiedIn(li *loopInfo) (names ModSet, all bool) {
 				if !x.Heap {
 					names[fmt.Sprintf("C:%s%s.%s.%d", fr.prefix, funcName(fr.fn), x.Comment, indexOfLocal(fr.fn, x))] = et
 				} else {
-					names["H:"+ks.typeKey(et)] = et
+					names["HF:"+ks.typeKey(et)] = et
 				}
 			case *ssa.MakeSlice:
 				et := x.Type().Underlying().(*types.Slice).Elem()
-				names["E:"+ks.typeKey(et)] = et
+				names["EF:"+ks.typeKey(et)] = et
 			case *ssa.MakeMap:
 				mt := x.Type().Underlying().(*types.Map)
 				pn, _, _, _ := fr.mapHeaps(mt)
 				names[pn] = mt
 			case *ssa.Convert:
 				if sl, ok := x.Type().Underlying().(*types.Slice); ok {
-					names["E:"+ks.typeKey(sl.Elem())] = sl.Elem()
+					names["EF:"+ks.typeKey(sl.Elem())] = sl.Elem()
 				}
 			case *ssa.Slice:
 				if pt, ok := x.X.Type().Underlying().(*types.Pointer); ok {
 					if at, ok := pt.Elem().Underlying().(*types.Array); ok {
-						names["E:"+ks.typeKey(at.Elem())] = at.Elem()
+						names["EF:"+ks.typeKey(at.Elem())] = at.Elem()
 					}
 				}
 			case ssa.CallInstruction:
 				c := x.Common()
 				if bi, ok := c.Value.(*ssa.Builtin); ok && bi.Name() == "append" {
 					if sl, ok := c.Args[0].Type().Underlying().(*types.Slice); ok {
-						names["E:"+ks.typeKey(sl.Elem())] = sl.Elem()
+						names["EF:"+ks.typeKey(sl.Elem())] = sl.Elem()
 					}
 				}
 				ms := fr.u.eng.callMods(c, fr)
@@ -899,6 +918,9 @@ func (fr *frame) loopEnv(li *loopInfo, c *Clause, phiVal func(p *ssa.Phi) *Val, 
 					}
 				}
 			}
+		}
+		if found == nil && len(li.header.Instrs) > 0 {
+			found = fr.localNamed(name, li.header.Instrs[0], st)
 		}
 		if found == nil {
 			return nil, false
@@ -999,22 +1021,7 @@ func (fr *frame) enterLoop(li *loopInfo, st *State, reach string) *State {
 		}
 		u.abstract("loop-havoc-all")
 	}
-	var mk []string
-	for k := range mods {
-		mk = append(mk, k)
-	}
-	sort.Strings(mk)
-	for _, k := range mk {
-		srt, ok := u.heapSort[k]
-		if !ok {
-			if mods[k] == nil {
-				continue
-			}
-			srt = u.modSort(k, mods[k])
-			u.heapGet(st, k, srt) // materialise the pre-loop version first
-		}
-		ns.h[k] = u.declare(k+"@loop", srt)
-	}
+	fr.havocNames(mods, st, ns, "loop", reach)
 	na := u.declare("alloc@loop", "Int")
 	u.assume(reach, fmt.Sprintf("(>= %s %s)", na, st.alloc))
 	ns.alloc = na
@@ -1039,7 +1046,7 @@ func (fr *frame) enterLoop(li *loopInfo, st *State, reach string) *State {
 		ev := entryVal(ri)
 		u.oblige(fr.obName("inv-init", fmt.Sprintf("loop%d.rangeindex", li.ordinal)), "inv-init", nil, reach,
 			fmt.Sprintf("(and (<= (- 1) %s) (< %s (+ %s 1)))", ev.t, ev.t, riLen)+"", fr.pos(h.Instrs[0].Pos()), "auto: -1 <= rangeindex <= len-1 (entry)")
-		u.assume(reach, fmt.Sprintf("(and (<= (- 1) %s) (<= %s %s))", fr.vals[ri].t, fr.vals[ri].t, riLen))
+		u.assume(reach, fmt.Sprintf("(and (<= (- 1) %s) (< %s %s))", fr.vals[ri].t, fr.vals[ri].t, riLen))
 	}
 	return ns
 }
@@ -1063,5 +1070,50 @@ func (fr *frame) loopBack(li *loopInfo, from *ssa.BasicBlock, st *State) {
 		}
 		t := fr.evalSpec(c, args, st, nil)
 		u.oblige(fr.obName("inv-step", fmt.Sprintf("loop%d.%s", li.ordinal, c.Label)), "inv-step", c.Tags, ec, t, fr.pos(h.Instrs[0].Pos()), c.Text)
+	}
+}
+
+
+// havocNames replaces the heaps named in mods by fresh versions in ns (st is the state before).
+// Names prefixed HF:/EF: mean "only objects allocated from now on are written": such heaps keep the
+// contents of every object that existed before (frame condition relative to the allocation counter).
+func (fr *frame) havocNames(mods ModSet, st *State, ns *State, why, reach string) {
+	u := fr.u
+	var mk []string
+	for k := range mods {
+		mk = append(mk, k)
+	}
+	sort.Strings(mk)
+	done := map[string]bool{}
+	for _, k := range mk {
+		if k == "*" || strings.HasPrefix(k, "P:") || strings.HasPrefix(k, "PE:") {
+			continue
+		}
+		real, fresh := k, false
+		if strings.HasPrefix(k, "HF:") || strings.HasPrefix(k, "EF:") {
+			real, fresh = k[:1]+k[2:], true
+			if _, also := mods[real]; also {
+				continue // a general write to the same heap exists
+			}
+		}
+		if done[real] {
+			continue
+		}
+		done[real] = true
+		srt, ok := u.heapSort[real]
+		if !ok {
+			if mods[k] == nil {
+				continue
+			}
+			srt = u.modSort(real, mods[k])
+			u.heapGet(st, real, srt) // materialise the pre-state version first
+		}
+		old := u.heapGet(st, real, srt)
+		nv := u.declare(real+"@"+why, srt)
+		ns.h[real] = nv
+		if fresh {
+			r := u.fresh("r")
+			u.assume("true", fmt.Sprintf("(forall ((%s Int)) (! (=> (< %s %s) (= (select %s %s) (select %s %s))) :pattern ((select %s %s))))", r, r, st.alloc, nv, r, old, r, nv, r))
+		}
 	}
 }
